@@ -5,6 +5,9 @@
 import SnowModel.Ops.OpCond
 import SnowModel.Ops.Simpson
 import SnowModel.Ops.Topology
+import SnowModel.Ops.Seeds
+import SnowModel.Ops.SnowingObj
+import SnowModel.Ops.Frames
 
 open Lean Snow
 
@@ -12,6 +15,9 @@ def allOps : List (String × Op) :=
   Snow.Ops.opCondOps
   ++ Snow.Ops.simpsonOps
   ++ Snow.Ops.topologyOps
+  ++ Snow.Ops.seedsOps
+  ++ Snow.Ops.snowingObjOps
+  ++ Snow.Ops.framesOps
 
 def handle (line : String) : String :=
   match Json.parse line with
